@@ -65,6 +65,8 @@ def run(ctx):
         "library_panics_caught": summ["panics"],
         "exhaustive": True,
         "rule": "every abstract value of Stanza.tla (full product of the %s symbol sets) is one vector; "
+                "error texts: stanza errors carry every subset of 4 (language, text) pairs (a map: 0-4 texts, up to three different tags), "
+                "stream errors every sequence of 0-3 texts over the language tags of ErrLangs in every order (plus repeated tags / empty texts up to 2); "
                 "distinct_nontrivial = distinct abstract token lists (names, attribute names, nesting) produced by all encoders" % tier,
         "laws": ["InDomain", "Complete", "NoFailure", "WellFormed", "PathsAgree", "RoundTrip (incl. helper expectations st/result/errreply/payload/err/iqerr)"],
         "design_check": "MCCodec: all token sequences of length <= %d over 7 tokens; reply helpers and error normal forms over the whole domain" % (5 if quick else 6),
